@@ -429,6 +429,6 @@ func init() {
 	registerCheck(&CheckDef{Prop: "C16", Level: "model_checking", Technique: tE1,
 		Quick:       []Run{{Scenario: "reload-1app", Depth: 4, MapModes: []int{1}}, {Scenario: "reload-3apps", Depth: 3, MapModes: []int{1}}},
 		Thorough:    []Run{{Scenario: "reload-1app", Depth: 6, MapModes: []int{1, 2}}, {Scenario: "reload-3apps", Depth: 5, MapModes: []int{1, 2}}},
-		QuickBudget: 150 * time.Second, ThoroughBudget: 40 * time.Minute,
+		QuickBudget: 150 * time.Second, ThoroughBudget: 12 * time.Minute,
 		Assumptions: []string{"static queue fields are compared with a fresh scheduler loaded from the same document (differential oracle); the leaf/parent flag of a converted queue is not compared", "single partition"}})
 }
